@@ -37,7 +37,7 @@ LEVEL_NOTE = ("Trusted: transport model, virtual clock.  Requests after a transp
 TECHNIQUE = "deterministic simulation of request histories with scripted per-request fault sequences"
 
 TYPES = ["ok", "drops_ok", "exhaust", "drops_exc", "senderr", "icmp", "rst", "fin", "refused", "drops_sockerr",
-         "stray_frag", "senderr_all", "garbage_ok", "unreach", "drops_unreach", "garbage2", "drops_frag"]
+         "stray_frag", "senderr_all", "garbage_ok", "unreach", "drops_unreach", "garbage2", "drops_frag", "lonefrag_all"]
 SETTINGS = [(0.5, 1), (1.0, 3), (0.25, 2)]
 SWEEP_LEN = {"quick": 2, "thorough": 3}
 N_RANDOM = {"quick": 25_000, "thorough": 1_000_000}
@@ -119,7 +119,7 @@ def _mkreq(rnd, typ, tau, r, tr, think=None, newloop=False):
         q["code"] = rnd.choice([1, 2, 3, 4, 6, 77])
     if typ in ("senderr", "icmp", "senderr_all"):
         q["errno"] = 111  # ECONNREFUSED: the one error the library maps itself; other errnos are C09's subject
-    if typ in ("icmp", "rst", "fin"):
+    if typ in ("icmp", "rst", "fin", "lonefrag_all"):
         q["d"] = rnd.choice([DEFAULT_LATENCY, tau / 2, tau - EPS])
     return q
 
@@ -224,6 +224,10 @@ def _script(q, tau, r, tr):
             {"tx": k + 1, "outcome": "result"}
     if t == "exhaust":
         return [], drop, [], {"tx": r + 1, "outcome": "failed"}
+    if t == "lonefrag_all":
+        # every transmission is answered by the first piece of the answer only; the rest never comes
+        return [], {"k": "lonefrag", "s": 10 if tr == "tcp" else 6, "d1": q.get("d", DEFAULT_LATENCY)}, [], \
+            {"tx": r + 1, "outcome": "failed", "nospacing": True}
     if t == "drops_exc":
         k = min(q["k"], r)
         return [drop] * k + [{"k": "exc", "code": q["code"]}], ok, [], {"tx": k + 1, "outcome": "rejected"}
@@ -325,6 +329,12 @@ def check_group(violations, txs, tau, r, tr, t_end, outcome, exp, after, what):
     t0 = txs[0]["t"]
     times = [t["t"] for t in txs]
     want = [t0 + i * tau for i in range(n)]
+    if exp.get("nospacing"):
+        # the wait restarts when a piece arrives: only the count and the outcome are fixed
+        oc = "failed" if outcome in ("failed", "maxretries") else outcome
+        if oc != exp["outcome"]:
+            violations.append(viol(f"C05:outcome:{tr}:after={after}", f"{what}: outcome {outcome}, expected {exp['outcome']}"))
+        return
     if times != want:
         violations.append(viol(f"C05:spacing:{tr}:after={after}",
                                f"{what}: transmissions at {times}, expected {want}"))
